@@ -1162,6 +1162,21 @@ std::vector<cinst_t> constraint_instances(const Eigen::Index n)
     out.push_back({"quadratic-inequality", "P=I+BB',q=generic,r=-1", quadratic_inequality_t{{to_matrix(Ppd), q1, -1.0}}});
     out.push_back({"quadratic-inequality", "P=indefinite,q=ones,r=0.5", quadratic_inequality_t{{to_matrix(Pin), q0, 0.5}}});
     out.push_back({"quadratic-inequality", "P=vv',q=generic,r=0", quadratic_inequality_t{{to_matrix(Pr1), q1, 0.0}}});
+    // non-symmetric P (nothing in the interface asks for a symmetric one): the value is 1/2 x'Px + q'x + r, its derivative
+    // 1/2 (P + P')x + q and its curvature the one of the symmetric part
+    Eigen::MatrixXd Psk = Ppd, Put = Eigen::MatrixXd::Identity(n, n);
+    for (Eigen::Index i = 0; i < n; ++i)
+    {
+        for (Eigen::Index j = i + 1; j < n; ++j)
+        {
+            Psk(i, j) += 0.75 + 0.25 * static_cast<double>(i);
+            Psk(j, i) -= 0.75 + 0.25 * static_cast<double>(i);
+            Put(i, j) = 10.0;
+        }
+    }
+    out.push_back({"quadratic-equality", "P=I+BB'+skew,q=generic,r=-1", quadratic_equality_t{{to_matrix(Psk), q1, -1.0}}});
+    out.push_back({"quadratic-inequality", "P=I+BB'+skew,q=generic,r=-1", quadratic_inequality_t{{to_matrix(Psk), q1, -1.0}}});
+    out.push_back({"quadratic-inequality", "P=I+10*strictly-upper,q=ones,r=0.5", quadratic_inequality_t{{to_matrix(Put), q0, 0.5}}});
     const auto sphere = function_t::all().get("sphere")->make(static_cast<tensor_size_t>(n), 10);
     const auto maxq   = function_t::all().get("maxq")->make(static_cast<tensor_size_t>(n), 10);
     const auto cauchy = function_t::all().get("cauchy")->make(static_cast<tensor_size_t>(n), 10);
